@@ -23,6 +23,14 @@ C12 == <<118,73,171,172,129,25,178,70,206,233,142,155,18,233,25,125, 80,134,203,
 ASSUME CbcEnc(KB, IV, P12) = C12 /\ CbcDec(KB, IV, C12) = P12
 ASSUME CbcMac(KB, IV, P12) = SubSeq(C12, 17, 32)
 ASSUME ZeroPad(<<1,2,3>>) = <<1,2,3,0,0,0,0,0,0,0,0,0,0,0,0,0>> /\ ZeroPad(PT) = PT
+\* the fold formulation of CBC equals the recursive reference formulation (and both the standard's answers above):
+\* on the vectors, on longer data of every length 0..5 blocks, with and without a trailing partial block
+LongData(n) == SubSeq([i \in 1..n |-> (i * 37 + 11) % 256], 1, n)
+ASSUME \A n \in {0, 16, 32, 48, 64, 80, 17, 33} :
+          /\ CbcEnc(KB, IV, LongData(n)) = CbcEncRef(KB, IV, LongData(n))
+          /\ CbcDec(KB, IV, LongData(n)) = CbcDecRef(KB, IV, LongData(n))
+ASSUME \A n \in {1, 15, 16, 17, 47, 48, 49, 80} : CbcMac(KB, IV, LongData(n)) = CbcMacRef(KB, IV, LongData(n))
+ASSUME CbcEncRef(KB, IV, P12) = C12 /\ CbcDecRef(KB, IV, C12) = P12 /\ CbcMacRef(KB, IV, P12) = SubSeq(C12, 17, 32)
 VARIABLE x
 Init == x = 0
 Next == x' = x
